@@ -12,7 +12,7 @@ claimed = {
   note="Unicode class predicates are exact SMT definitions generated from the toolchain tables; golang.org/x/text/cases.Title(..).String is a contract stub (total, arbitrary result).", ref="DESIGN.md §3 C19"),
  "C15": dict(
   text="Bounded symbolic execution of the real ParseTypeRef / TypeRef.String / ParseRef: every reference tree shape up to the bound (quick: 183 shapes of <= 4 levels x <= 2 arguments, 85 shapes with <= 3 arguments, per-node path split on <= 3 levels; thorough: 33 673 shapes of <= 5 levels) with symbolic identifier and path bytes must parse to exactly the reference tree and print back to the input; bracket-free references of arbitrary bytes (<= 5 / <= 8) are split at the last dot and ParseRef agrees.",
-  note="Inside brackets identifier/path bytes are ASCII and 1-2 bytes long; the namer-rewriting half of C15 is checked with C03's harnesses once built.", ref="DESIGN.md §3 C15"),
+  note="Inside brackets identifier/path bytes are ASCII and 1-2 bytes long; the namer-rewriting half runs NewRawNamer over the real tracker on a nested generic reference with symbolic paths.", ref="DESIGN.md §3 C15"),
  "C09": dict(
   text="Bounded symbolic execution of the real snippet.T / Sprintf / Comment / GoDirective / Snippets / Fragments (with the real text/scanner interpreted) against an independent reference renderer executed next to it: equality of panic behaviour and of output bytes for every ASCII format up to the bound (quick: 5 bytes; thorough: 7 bytes), with nil, literal, placeholder-looking and nested-template bindings.",
   note="Domain restrictions (bare @, nil interface arguments, non-Snippet Sprintf arguments, NUL/BOM/invalid UTF-8) are listed in the evidence under outside_bounds.", ref="DESIGN.md §3 C09"),
@@ -23,6 +23,9 @@ claimed = {
   text="Narrow: the recursion guard visits.visited, on which the termination claim rests, is checked as a lemma by bounded symbolic execution from every pre-state reachable by <= 3 (thorough 4) earlier guard calls with symbolic indexes: a (function, result) pair asked about is cut the next time, a fresh pair is not.",
   note="PARTIAL: everything in C14 that analyses go/ast + go/types of real programs (soundness of alternatives, literal returns, closures, determinism) is outside; boundedness of the recursion given a marking guard is a paper argument.", ref="DESIGN.md §3 C14"),
 }
+claimed["C03"] = dict(
+  text="Bounded symbolic execution of the real naming system (defaultImportTracker, golangTrackerLocalName, toLocalName -> camelcase, rawNamer, writeImports; the std table built by the real init from the embedded std.list): for symbolic path segments within the bound every derived local name is a non-empty, valid, non-keyword identifier; every history of <= 3 AddType calls with symbolic (possibly clashing / repeated) paths keeps path<->name inverse and injective, earlier bindings stable, re-adding a no-op, std names reserved; rawNamer qualifies with the registered name, leaves the own package unqualified and unimported, and Imports() is exactly the referenced set; writeImports prints exactly one line per entry under every map iteration order.",
+  note="x/text title-casing: native for concrete input, exact model for ASCII alphanumeric words, stub otherwise. Not covered: that the parsed generated file uses these names (go/parser), PkgExpose / go-types based references.", ref="DESIGN.md §3 C03")
 na = {
  "C01": "validity / gofmt+gofumpt fixed point is decided inside go/parser, go/printer and mvdan.cc/gofumpt (pointer-rich AST code over arbitrary Go files): cannot be encoded for the solver; stubbing them would assume the property (DESIGN.md §5)",
  "C10": "ValueLit walks reflect.Values (runtime type descriptors, unsafe) and the oracle is the Go compiler evaluating the literal: not encodable (DESIGN.md §5)",
